@@ -191,6 +191,7 @@ type Obs struct {
 	FlushErr       string     `json:"flush_err,omitempty"`
 	FlushN         int        `json:"-"`
 	FinishErr      string     `json:"finish_err,omitempty"`
+	FinishRefused  string     `json:"finish_refused,omitempty"` // error of a Finish that the store refused once (then repeated)
 	Abandoned      bool       `json:"abandoned,omitempty"`
 	FailedFlush    bool       `json:"failed_flush,omitempty"`
 	FailedFlushErr string     `json:"failed_flush_err,omitempty"`
@@ -453,6 +454,11 @@ type PerRequest struct {
 	BeforeFinish func()
 	AfterFinish  func()
 	DebugOut     DebugSink
+	// RefuseFinishNext: the store refuses the save of the next request once (the session data type is locked on the
+	// handle while Finish runs, as a maintenance window would); the client sees the error, the lock is lifted and
+	// Finish is called again on the same engine. Reset by Request. FinishRefusals counts the refusals seen.
+	RefuseFinishNext bool
+	FinishRefusals   int
 }
 
 func NewPerRequest(a *App, cfg Config, b *Backend) *PerRequest {
@@ -465,6 +471,8 @@ func (d *PerRequest) Request(input []byte) *Obs {
 	d.Res.Take()
 	abandon := d.AbandonNext
 	d.AbandonNext = false
+	refuse := d.RefuseFinishNext
+	d.RefuseFinishNext = false
 	useShared := d.Shared != nil && (d.Shared.Mode == "flush" || d.Shared.seen[d.Cfg.SessionId])
 	var store db.Db
 	var err error
@@ -545,6 +553,16 @@ func (d *PerRequest) Request(input []byte) *Obs {
 		if abandon {
 			o.Abandoned = true
 			return
+		}
+		if refuse {
+			store.SetLock(db.DATATYPE_STATE, true)
+			ferr := en.Finish(ctx)
+			store.SetLock(db.DATATYPE_STATE, false)
+			if ferr != nil {
+				d.FinishRefusals++
+				o.FinishRefused = ferr.Error()
+			}
+			// the client repeats Finish until it succeeds
 		}
 		if ferr := en.Finish(ctx); ferr != nil {
 			o.FinishErr = ferr.Error()
